@@ -416,7 +416,7 @@ def run_val(cx, derived=True):
             cases.append("unlyb %s %s" % (d, hexs(bytes(n))))
     run.diff(cases)
     cx.rule("val: LYB value decode of boundary byte strings of every size 0..9 for the fixed-size types; bits bitmaps over defined positions only "
-            "(an undefined position set is finding F51, replayed separately)")
+            "(an undefined position set is finding F64, replayed separately)")
 
     laws_value_len(run, lex_of)
     routes(run, accepted, lex_of)
@@ -501,7 +501,7 @@ def laws_value(run, accepted, pairs):
 # ------------------------------------------- (L) a value is the bytes [value, value + value_len), nothing beyond
 def laws_value_len(run, lex_of):
     """lyd_value_validate(value, value_len) on a prefix of a longer buffer must give the verdict of the prefix alone, and must
-    not read past value_len when the buffer ends there (finding F52: lyplg_type_parse_dec64 looks at value[len + 1])."""
+    not read past value_len when the buffer ends there (finding F51: lyplg_type_parse_dec64 looks at value[len + 1])."""
     cx = run.cx
     rng = cx.sub_rng("value_len")
     cases = []
@@ -787,10 +787,59 @@ def derived_types(run):
     cx.rule("val: derived types (laws on the implementation only): %d typedefs of ietf-inet-types / ietf-yang-types over hand-picked lexical pools "
             "(case, zero compression, zones, prefix normalisation, time-zone and fraction variants)" % len(accepted))
     laws_value(run, accepted, pairs)
+    ip_oracle(run)
+
+
+def ip_oracle(run):
+    """Canonical form of the ietf-inet-types address / prefix types against Python's `ipaddress` (RFC 4291 / RFC 5952 text form,
+    host bits cleared for prefixes - RFC 6991), an oracle that shares nothing with libyang: every prefix length 0..32 / 0..128 over
+    addresses with non-zero host bits on every byte boundary."""
+    import ipaddress
+    cx = run.cx
+    rng = cx.sub_rng("ip")
+    cases = {}
+    v4 = ["255.255.255.255", "10.1.2.3", "192.168.255.1", "1.2.3.4", "128.0.0.1"]
+    v6 = ["ffff:ffff:ffff:ffff:ffff:ffff:ffff:ffff", "2001:db8:1:ff02:a0b:c0d:e0f:1", "fe80::1", "2001:DB8:0:0:1:0:0:1", "::ffff:1.2.3.4",
+          "1:2:3:4:5:6:7:8", "0:0:1:0:0:0:0:1"]
+    for a in v4:
+        for l in range(0, 33):
+            cases["t:ietf-inet-types:ipv4-prefix %s/%d" % (a, l)] = str(ipaddress.ip_network("%s/%d" % (a, l), strict=False))
+        cases["t:ietf-inet-types:ipv4-address-no-zone " + a] = str(ipaddress.ip_address(a))
+    for a in v6:
+        for l in range(0, 129):
+            cases["t:ietf-inet-types:ipv6-prefix %s/%d" % (a, l)] = str(ipaddress.ip_network("%s/%d" % (a, l), strict=False))
+        if "." not in a:
+            cases["t:ietf-inet-types:ipv6-address-no-zone " + a] = str(ipaddress.ip_address(a))
+    for _ in range(cx.n(300, 5000)):
+        a = ipaddress.ip_address(rng.getrandbits(128))
+        l = rng.randrange(0, 129)
+        cases["t:ietf-inet-types:ipv6-prefix %s/%d" % (a.exploded if rng.random() < 0.5 else a.compressed, l)] = str(ipaddress.ip_network("%s/%d" % (a, l), strict=False))
+    lines = ["validate %s %s" % (k.split(" ")[0], hexs(k.split(" ", 1)[1])) for k in cases]
+    run.impl_only(lines)
+    for k, exp in cases.items():
+        ty, lex = k.split(" ", 1)
+        r = run.get("validate %s %s" % (ty, hexs(lex)))
+        if r[:2] == ["err", "Schema"]:
+            return
+        cx.count(("ip", k), True, "val:ip-oracle:" + r[0])
+        got = unhex(r[1]).decode() if r[0] == "ok" else None
+        same = got == exp
+        if not same and got is not None and ".".join(["0"] * 0) == "" and "." in got and ":" in got:
+            # RFC 5952 sec. 5 allows the mixed notation for IPv4-mapped addresses (inet_ntop uses it): compare the value, and the
+            # text for lower case / no leading zeros only
+            try:
+                val = ipaddress.ip_network(got, strict=True) if "/" in got else ipaddress.ip_address(got)
+                ref = ipaddress.ip_network(exp) if "/" in exp else ipaddress.ip_address(exp)
+                same = val == ref and got == got.lower()
+            except ValueError:
+                same = False
+        if not same:
+            cx.fail("val", "canonical form of %s differs from the RFC 6991 / RFC 5952 form computed by an independent implementation" % ty.split(":")[-1],
+                    {"type": ty, "lexical": lex, "libyang": got, "expected": exp})
 
 
 def f51_witness(run):
-    """LYB bits value with a bit set at a position the type does not define (finding F51): out of the model's fragment,
+    """LYB bits value with a bit set at a position the type does not define (finding F64): out of the model's fragment,
     replayed on the implementation only."""
     cx = run.cx
     line = "unlyb bits:%s=0,%s=3,%s=9 0200" % (hexs(b"a"), hexs(b"b"), hexs(b"c"))
